@@ -209,12 +209,25 @@ impl TzifOwned {
         // trigger for any times before the first transition found in the TZif
         // data.
         self.transitions.add_with_type_index(TIMESTAMP_MIN, 0);
+        let mut prev: Option<i64> = None;
         while let Some(chunk) = it.next() {
             let mut timestamp = if header.is_32bit() {
                 i64::from(from_be_bytes_i32(chunk))
             } else {
                 from_be_bytes_i64(chunk)
             };
+            // RFC 8536 requires transition times to be in strictly ascending
+            // order. All lookups (binary search) and the transition
+            // iterators rely on the order. We do tolerate repeated times
+            // though, since `zic` emits them for degenerate rules (e.g., DST
+            // ending at the very instant it starts).
+            if prev.map_or(false, |prev| timestamp < prev) {
+                return Err(err!(
+                    "found transition time {timestamp} that is less than \
+                     the transition time preceding it",
+                ));
+            }
+            prev = Some(timestamp);
             if !(TIMESTAMP_MIN <= timestamp && timestamp <= TIMESTAMP_MAX) {
                 // We really shouldn't error here just because the Unix
                 // timestamp is outside what Jiff supports. Since what Jiff
